@@ -1,6 +1,7 @@
 import ScpiVerif.Drv.Util
 import ScpiVerif.Model.Expr
 import ScpiVerif.Spec.ExprList
+import ScpiVerif.Spec.Float
 namespace ScpiVerif.Drv
 open ScpiVerif.Lexer ScpiVerif.Expr
 
@@ -8,6 +9,16 @@ def slash (l : List Int) : String := if l.isEmpty then "-" else "/".intercalate 
 
 /-- strtol value of a decimal literal text as int32 (what the Int variants deliver) -/
 def litInt32 (t : Bytes) : Int := (Prim.strtolTo 32 t 0 10).2
+
+/-- bits of the correctly rounded double of a decimal literal text ("?" when it is not one) -/
+def litDouble (t : Bytes) : String :=
+  match Spec.Float.litValue t with
+  | some (neg, a, b) => String.ofList ((List.range 16).reverse.map (fun k => hexDigit (Spec.Float.doubleBits neg a b / 16^k % 16)))
+  | none => "?"
+
+/-- what SCPI_ParamToDouble makes of a decimal token inside the expression: strtod from the token start (it reads on past
+the token like strtol does) -/
+def tokDouble (win : Bytes) (t : Token) : String := litDouble ((win.drop t.ptr).take (Prim.strtodLen win t.ptr))
 
 /-- X <hexbody> <index> <cap> => n… c… -/
 def runExpr (inp : List String) (obs : List String) : Option Verdict := do
@@ -18,7 +29,7 @@ def runExpr (inp : List String) (obs : List String) : Option Verdict := do
   let nStr :=
     if n.res == .ok then
       let rng := n.isRange.getD false
-      s!"n0,{if rng then 1 else 0},{hexOfBytes (tokText n.from_)},{if rng then hexOfBytes (tokText n.to_) else "-"},{tokInt32 body n.from_},{if rng then toString (tokInt32 body n.to_) else "-"}"
+      s!"n0,{if rng then 1 else 0},{hexOfBytes (tokText n.from_)},{if rng then hexOfBytes (tokText n.to_) else "-"},{tokInt32 body n.from_},{if rng then toString (tokInt32 body n.to_) else "-"},{tokDouble body n.from_},{if rng then tokDouble body n.to_ else "-"}"
     else s!"n{n.res.code}"
   let c := channelListEntry body index cap
   let cStr :=
@@ -42,7 +53,8 @@ def runExpr (inp : List String) (obs : List String) : Option Verdict := do
           match l[index]? with
           | some e =>
             let want := ["n0", (if e.to_.isSome then "1" else "0"), hexOfBytes e.from_, (match e.to_ with | some t => hexOfBytes t | none => "-"),
-                         toString (litInt32 e.from_), (match e.to_ with | some t => toString (litInt32 t) | none => "-")]
+                         toString (litInt32 e.from_), (match e.to_ with | some t => toString (litInt32 t) | none => "-"),
+                         litDouble e.from_, (match e.to_ with | some t => litDouble t | none => "-")]
             if nf == want then [] else if nf.headD "" != "n0" then ["C19.numeric_entry_not_ok"] else ["C19.numeric_entry_value"]
           | none => if nf == ["n2"] then [] else ["C19.numeric_no_more"]
         | none =>
